@@ -241,7 +241,7 @@ pub fn full_rank(rows: &[Vec<f64>]) -> bool {
 // round 4: larger from-data instances (d = 8, 12 columns; m = d+2 .. d+4 rows), small spread
 
 /// names of the deterministic row designs of `big_data_rows`
-pub const BIG_DESIGNS: &[&str] = &["unit rows + extras", "rounded cosines", "staircase + extras", "residues"];
+pub const BIG_DESIGNS: &[&str] = &["unit rows + extras", "rounded cosines", "staircase + extras", "Legendre symbols mod 19"];
 
 /// The `design`-th deterministic data set with m rows and d columns (m >= d + 2), small integer
 /// entries. Every design has a well-conditioned sample covariance (checked by the harness).
@@ -268,8 +268,23 @@ pub fn big_data_rows(d: usize, m: usize, design: usize) -> Vec<Vec<f64>> {
             rows.extend(extras.into_iter().skip(1).take(m - d - 1));
             rows
         }
-        // x_kj = ((k*k + (j+1)*k + 2j) mod 5) - 2
-        3 => (0..m).map(|k| (0..d).map(|j| ((k * k + (j + 1) * k + 2 * j) % 5) as f64 - 2.0).collect()).collect(),
+        // x_kj = Legendre symbol of (k + 3j + 1) mod 19 (Paley-type +-1 pattern, 0 at multiples of 19)
+        3 => (0..m)
+            .map(|k| {
+                (0..d)
+                    .map(|j| {
+                        let r = (k + 3 * j + 1) % 19;
+                        if r == 0 {
+                            0.0
+                        } else if (1..19).any(|q| (q * q) % 19 == r) {
+                            1.0
+                        } else {
+                            -1.0
+                        }
+                    })
+                    .collect()
+            })
+            .collect(),
         other => panic!("unknown data design {}", other),
     }
 }
